@@ -109,6 +109,12 @@ fn guarded<R>(f: impl FnOnce() -> R) -> Result<R, Outcome> {
             let _z = zone::enter(zone::OFF);
             let (msg, loc) = LAST_PANIC.lock().unwrap().take().unwrap_or_default();
             arena::clear_note();
+            // a library constructor refusing the (deliberately misaligned / short) byte slice
+            // the harness offered is a documented error, not a panic of the library
+            if loc.contains("simexec/src/images.rs") && msg.contains("on an `Err` value: Invalid") {
+                let v = if msg.contains("InvalidBufferAlignment") { "InvalidBufferAlignment" } else { "InvalidBufferSize" };
+                return Err(Outcome::Err(format!("ImageBufferError::{}", v)));
+            }
             let injected = msg.contains(INJECTED_PANIC);
             Err(Outcome::Panic { msg, loc: strip_repo(&loc), injected })
         }
